@@ -45,6 +45,24 @@ type c11Access struct {
 	guards string // "+"-joined sorted guards, "" = none
 }
 
+// c11Compute: a call that produces (part of) a value stored into a mutex-guarded location, and whether the
+// mutex guarding the store was held while that call was made.
+type c11Compute struct {
+	loc, fn, callee string
+	held            bool
+}
+
+// c11Prod: what a local variable was computed from (calls with the locks held at that point, other locals).
+type c11Prod struct {
+	calls []c11Call
+	deps  []string
+}
+
+type c11Call struct {
+	callee string
+	held   []string
+}
+
 type c11Captured struct {
 	fn, callee, name, guards string
 }
@@ -58,6 +76,7 @@ type c11Pkg struct {
 	initOnly  map[string]bool            // functions called from package-level initialisers / init() and from nowhere else
 	acc       []c11Access
 	capt      []c11Captured
+	comp      []c11Compute
 }
 
 func c11BaseName(t ast.Expr) (string, bool) {
@@ -194,6 +213,7 @@ type c11Fn struct {
 	initFn  bool              // the function is called from package initialisers only
 	locals  map[string]bool
 	doneDo  []string // once expressions whose Do(...) statement has already been passed in this function
+	prod    map[string][]c11Prod
 }
 
 func c11Strip(e ast.Expr) ast.Expr {
@@ -359,6 +379,83 @@ func (fn *c11Fn) rootIdent(e ast.Expr) *ast.Ident {
 	}
 }
 
+var c11Builtins = map[string]bool{"len": true, "cap": true, "make": true, "new": true, "append": true, "copy": true,
+	"delete": true, "panic": true, "string": true, "int": true, "float64": true, "byte": true, "rune": true}
+
+// c11Producers lists the calls and the identifiers an expression is computed from (function literals are opaque).
+func c11Producers(e ast.Expr, held []string) c11Prod {
+	var p c11Prod
+	ast.Inspect(e, func(n ast.Node) bool {
+		switch x := n.(type) {
+		case *ast.FuncLit:
+			return false
+		case *ast.CallExpr:
+			name := strings.Join(strings.Fields(src(x.Fun)), "")
+			if !c11Builtins[name] {
+				p.calls = append(p.calls, c11Call{callee: name, held: append([]string{}, held...)})
+			}
+		case *ast.Ident:
+			p.deps = append(p.deps, x.Name)
+		}
+		return true
+	})
+	return p
+}
+
+func (fn *c11Fn) noteProd(name string, rhs ast.Expr, held []string) {
+	if name == "_" || rhs == nil {
+		return
+	}
+	if fn.prod == nil {
+		fn.prod = map[string][]c11Prod{}
+	}
+	fn.prod[name] = append(fn.prod[name], c11Producers(rhs, held))
+}
+
+// stored records, for a store into a shared location made under a mutex, every call the stored value was
+// computed from (through local variables, transitively) and whether that mutex was held during the call.
+func (fn *c11Fn) stored(lhs, rhs ast.Expr, held []string) {
+	l := fn.loc(lhs)
+	if l == "" || rhs == nil {
+		return
+	}
+	var mutexes []string
+	for _, h := range held {
+		if strings.HasPrefix(h, "mutex:") {
+			mutexes = append(mutexes, h)
+		}
+	}
+	if len(mutexes) == 0 {
+		return
+	}
+	seen := map[string]bool{}
+	var visit func(p c11Prod)
+	visit = func(p c11Prod) {
+		for _, c := range p.calls {
+			ok := true
+			for _, m := range mutexes {
+				has := false
+				for _, h := range c.held {
+					if h == m {
+						has = true
+					}
+				}
+				ok = ok && has
+			}
+			fn.p.comp = append(fn.p.comp, c11Compute{loc: l, fn: fn.name, callee: c.callee, held: ok})
+		}
+		for _, d := range p.deps {
+			if !seen[d] {
+				seen[d] = true
+				for _, q := range fn.prod[d] {
+					visit(q)
+				}
+			}
+		}
+	}
+	visit(c11Producers(rhs, held))
+}
+
 func (fn *c11Fn) write(e ast.Expr, held []string, lit *c11Lit) {
 	fn.record(e, true, held)
 	if lit != nil {
@@ -398,13 +495,23 @@ func (fn *c11Fn) walkStmt(s ast.Stmt, held []string, lit *c11Lit) []string {
 		for _, r := range x.Rhs {
 			fn.walkExpr(r, held, lit)
 		}
-		for _, l := range x.Lhs {
+		for i, l := range x.Lhs {
+			var rhs ast.Expr
+			if len(x.Rhs) == len(x.Lhs) {
+				rhs = x.Rhs[i]
+			} else if len(x.Rhs) == 1 {
+				rhs = x.Rhs[0]
+			}
+			if id, ok := l.(*ast.Ident); ok && (x.Tok == token.DEFINE || fn.locals[id.Name]) {
+				fn.noteProd(id.Name, rhs, held)
+			}
 			if x.Tok == token.DEFINE {
 				if id, ok := l.(*ast.Ident); ok {
 					fn.declare(lit, id)
 				}
 				continue
 			}
+			fn.stored(l, rhs, held)
 			fn.write(l, held, lit)
 		}
 	case *ast.IncDecStmt:
@@ -416,8 +523,11 @@ func (fn *c11Fn) walkStmt(s ast.Stmt, held []string, lit *c11Lit) []string {
 			for _, sp := range gd.Specs {
 				if vs, ok := sp.(*ast.ValueSpec); ok {
 					fn.declare(lit, vs.Names...)
-					for _, v := range vs.Values {
+					for i, v := range vs.Values {
 						fn.walkExpr(v, held, lit)
+						if i < len(vs.Names) {
+							fn.noteProd(vs.Names[i].Name, v, held)
+						}
 					}
 				}
 			}
@@ -692,6 +802,7 @@ func factsC11(repo string, pkgs map[string][]*ast.File) (string, map[string]inte
 		writers, bare map[string]bool
 	}
 	rows := map[string]*row{}
+	comps := map[[4]string]bool{}
 	get := func(kind, loc string) *row {
 		k := kind + "\x00" + loc
 		if rows[k] == nil {
@@ -789,6 +900,10 @@ func factsC11(repo string, pkgs map[string][]*ast.File) (string, map[string]inte
 				}
 			}
 		}
+		// ---- compute rows
+		for _, c := range p.comp {
+			comps[[4]string{c.loc, c.fn, c.callee, fmt.Sprint(c.held)}] = true
+		}
 		// ---- captured rows
 		for _, c := range p.capt {
 			r := get("captured", pn+"."+c.fn+"/"+c.callee+":"+c.name)
@@ -834,6 +949,31 @@ func factsC11(repo string, pkgs map[string][]*ast.File) (string, map[string]inte
 		js = append(js, map[string]interface{}{"kind": r.kind, "location": r.loc, "writeGuards": strs(r.wg),
 			"readGuards": strs(r.rg), "writers": strs(r.writers), "unguardedReaders": strs(r.bare)})
 	}
+	b.WriteString("]\n\n")
+	ckeys := make([][4]string, 0, len(comps))
+	for k := range comps {
+		ckeys = append(ckeys, k)
+	}
+	sort.Slice(ckeys, func(i, j int) bool {
+		for x := 0; x < 4; x++ {
+			if ckeys[i][x] != ckeys[j][x] {
+				return ckeys[i][x] < ckeys[j][x]
+			}
+		}
+		return false
+	})
+	b.WriteString("/-- (mutex-guarded location, storing function, a call its stored value is computed from, whether the mutex that\n")
+	b.WriteString("guards the store is held during that call) -/\n")
+	b.WriteString("def lazyCompute : List (String × String × String × Bool) := [\n")
+	cjs := []map[string]interface{}{}
+	for i, k := range ckeys {
+		sep := ","
+		if i == len(ckeys)-1 {
+			sep = ""
+		}
+		fmt.Fprintf(&b, "  (%s, %s, %s, %s)%s\n", leanStr(k[0]), leanStr(k[1]), leanStr(k[2]), k[3], sep)
+		cjs = append(cjs, map[string]interface{}{"location": k[0], "function": k[1], "call": k[2], "lockHeld": k[3] == "true"})
+	}
 	b.WriteString("]\n")
-	return b.String(), map[string]interface{}{"lazyState": js}
+	return b.String(), map[string]interface{}{"lazyState": js, "lazyCompute": cjs}
 }
